@@ -7,6 +7,7 @@ import Hive.Proofs.KVMem
 import Hive.Model.KVDrive
 import Hive.Gen.C04_Calls
 import Hive.Gen.C04_Skel
+import Hive.Gen.C04_Wrap
 /-!
 # C04 — KVStore views and wrappers obey one ordered-map contract
 
@@ -802,6 +803,153 @@ example : MInv (mrun minit [.alloc [1], .alloc [170], .withRealm 1 0 1, .set 1 2
   C04_mem_inv_reachable _
 
 end MemoryKeys
+
+/-! ## the wrapper model is derived from the source (`Hive/Gen/C04_Wrap.lean`, `Hive/Model/KVWrapSrc.lean`)
+
+`harness/c04/wgen` translates the body of every method of `flushkv.go` and `debug.go` on every run of the check.  The theorems
+below take the *generated* terms as they are: interpreting the body of method `M` of one wrapper layer over the trace model of
+the layers below (`sem … ws`) gives the trace model of the stack with that layer on top (`sem … (cfg :: ws)`) — for every
+method of the store and batch objects of both wrappers, every stack `ws` below, every configuration of `debug.New`
+(any filter value, callback or nil callback), every argument, open and closed store, failing and succeeding `Flush`.  So
+"forwards exactly this call with exactly these arguments, reports exactly this command to the callback under exactly this
+guard, flushes exactly when the mutation returned nil, and hands its configuration on to the views and batches it creates"
+is a proof obligation per method against the working tree; a change of a body (a dropped guard, another command constant,
+a swapped or dropped argument, a missing early return, a composite literal that does not inherit the callback or the
+filter, …) breaks it. -/
+
+section WrapperSource
+open WrapSrc Hive.Gen.C04Wrap
+
+/-- The result of a method according to the trace model. -/
+def ofSem (r : List Ev × Bool) (cr : Option TWrap) : Res := ⟨r.1, r.2, cr⟩
+
+macro "wrap_derive" : tactic =>
+  `(tactic| (simp [runBody, wexec, under, sem, recvKind, argsOK, evalArg, trFwd, trMut, ofSem, cmdOfName, optCb, newCfg,
+      src_flushkv_flushKVStore_WithRealm, src_flushkv_flushKVStore_Realm, src_flushkv_flushKVStore_Iterate, src_flushkv_flushKVStore_IterateKeys, src_flushkv_flushKVStore_Clear, src_flushkv_flushKVStore_Get, src_flushkv_flushKVStore_Set, src_flushkv_flushKVStore_Has, src_flushkv_flushKVStore_Delete, src_flushkv_flushKVStore_DeletePrefix, src_flushkv_flushKVStore_Flush, src_flushkv_flushKVStore_Close, src_flushkv_flushKVStore_Batched, src_flushkv_flushKVStore_WithExtendedRealm, src_flushkv_batchedMutations_Set, src_flushkv_batchedMutations_Delete, src_flushkv_batchedMutations_Cancel, src_flushkv_batchedMutations_Commit, src_debug_debugStore_WithRealm, src_debug_debugStore_Realm, src_debug_debugStore_Iterate, src_debug_debugStore_IterateKeys, src_debug_debugStore_Clear, src_debug_debugStore_Get, src_debug_debugStore_Set, src_debug_debugStore_Has, src_debug_debugStore_Delete, src_debug_debugStore_DeletePrefix, src_debug_debugStore_Flush, src_debug_debugStore_Close, src_debug_debugStore_Batched, src_debug_debugStore_WithExtendedRealm, src_debug_batchedMutations_Set, src_debug_batchedMutations_Delete, src_debug_batchedMutations_Cancel, src_debug_batchedMutations_Commit]
+             try (split <;> simp_all)))
+
+/-- **flushkv, derived from its source**: every method of `flushKVStore` and of its `batchedMutations` (self = `s` / `b`), as translated from the working tree, does over any stack `ws` what the trace model says for `.flush :: ws`: reads, `Flush`, `Close`, `Realm`, batch `Set` / `Delete` / `Cancel` are forwarded with all arguments in order; `Set`, `Delete`, `DeletePrefix`, `Clear` and batch `Commit` are forwarded, return at once when the wrapped call fails, and otherwise `Flush` the wrapped store, returning its error unless it is ErrStoreClosed; `WithRealm` / `Batched` wrap what the wrapped store returns in a new flushkv object; `WithExtendedRealm` = `Realm()` then `WithRealm(realm ‖ r)` on the wrapper itself. -/
+theorem C04_wrapper_model_is_the_source_flushkv (ws : List TWrap) (k v : Bytes) (dirs : List Nat) (R : Bytes) (ok fe : Bool) :
+    runBody ⟨[k], dirs, R, ok, fe⟩ (.flush) "s" ws src_flushkv_flushKVStore_WithRealm =
+      ofSem (sem ⟨[k], dirs, R, ok, fe⟩ false (.flush :: ws) "WithRealm" [k]) (if ok then some (.flush) else none) ∧
+    runBody ⟨[], dirs, R, ok, fe⟩ (.flush) "s" ws src_flushkv_flushKVStore_Realm =
+      ofSem (sem ⟨[], dirs, R, ok, fe⟩ false (.flush :: ws) "Realm" []) none ∧
+    runBody ⟨[k], dirs, R, ok, fe⟩ (.flush) "s" ws src_flushkv_flushKVStore_Iterate =
+      ofSem (sem ⟨[k], dirs, R, ok, fe⟩ false (.flush :: ws) "Iterate" [k]) none ∧
+    runBody ⟨[k], dirs, R, ok, fe⟩ (.flush) "s" ws src_flushkv_flushKVStore_IterateKeys =
+      ofSem (sem ⟨[k], dirs, R, ok, fe⟩ false (.flush :: ws) "IterateKeys" [k]) none ∧
+    runBody ⟨[], dirs, R, ok, fe⟩ (.flush) "s" ws src_flushkv_flushKVStore_Clear =
+      ofSem (sem ⟨[], dirs, R, ok, fe⟩ false (.flush :: ws) "Clear" []) none ∧
+    runBody ⟨[k], dirs, R, ok, fe⟩ (.flush) "s" ws src_flushkv_flushKVStore_Get =
+      ofSem (sem ⟨[k], dirs, R, ok, fe⟩ false (.flush :: ws) "Get" [k]) none ∧
+    runBody ⟨[k, v], dirs, R, ok, fe⟩ (.flush) "s" ws src_flushkv_flushKVStore_Set =
+      ofSem (sem ⟨[k, v], dirs, R, ok, fe⟩ false (.flush :: ws) "Set" [k, v]) none ∧
+    runBody ⟨[k], dirs, R, ok, fe⟩ (.flush) "s" ws src_flushkv_flushKVStore_Has =
+      ofSem (sem ⟨[k], dirs, R, ok, fe⟩ false (.flush :: ws) "Has" [k]) none ∧
+    runBody ⟨[k], dirs, R, ok, fe⟩ (.flush) "s" ws src_flushkv_flushKVStore_Delete =
+      ofSem (sem ⟨[k], dirs, R, ok, fe⟩ false (.flush :: ws) "Delete" [k]) none ∧
+    runBody ⟨[k], dirs, R, ok, fe⟩ (.flush) "s" ws src_flushkv_flushKVStore_DeletePrefix =
+      ofSem (sem ⟨[k], dirs, R, ok, fe⟩ false (.flush :: ws) "DeletePrefix" [k]) none ∧
+    runBody ⟨[], dirs, R, ok, fe⟩ (.flush) "s" ws src_flushkv_flushKVStore_Flush =
+      ofSem (sem ⟨[], dirs, R, ok, fe⟩ false (.flush :: ws) "Flush" []) none ∧
+    runBody ⟨[], dirs, R, ok, fe⟩ (.flush) "s" ws src_flushkv_flushKVStore_Close =
+      ofSem (sem ⟨[], dirs, R, ok, fe⟩ false (.flush :: ws) "Close" []) none ∧
+    runBody ⟨[], dirs, R, ok, fe⟩ (.flush) "s" ws src_flushkv_flushKVStore_Batched =
+      ofSem (sem ⟨[], dirs, R, ok, fe⟩ false (.flush :: ws) "Batched" []) (if ok then some (.flush) else none) ∧
+    runBody ⟨[k], dirs, R, ok, fe⟩ (.flush) "s" ws src_flushkv_flushKVStore_WithExtendedRealm =
+      ⟨trFwd none .realm (.flush :: ws) ++ trFwd none (.withRealm (R ++ k)) (.flush :: ws), ok, if ok then some (.flush) else none⟩ ∧
+    runBody ⟨[k, v], dirs, R, ok, fe⟩ (.flush) "b" ws src_flushkv_batchedMutations_Set =
+      ofSem (sem ⟨[k, v], dirs, R, ok, fe⟩ true (.flush :: ws) "Set" [k, v]) none ∧
+    runBody ⟨[k], dirs, R, ok, fe⟩ (.flush) "b" ws src_flushkv_batchedMutations_Delete =
+      ofSem (sem ⟨[k], dirs, R, ok, fe⟩ true (.flush :: ws) "Delete" [k]) none ∧
+    runBody ⟨[], dirs, R, ok, fe⟩ (.flush) "b" ws src_flushkv_batchedMutations_Cancel =
+      ofSem (sem ⟨[], dirs, R, ok, fe⟩ true (.flush :: ws) "Cancel" []) none ∧
+    runBody ⟨[], dirs, R, ok, fe⟩ (.flush) "b" ws src_flushkv_batchedMutations_Commit =
+      ofSem (sem ⟨[], dirs, R, ok, fe⟩ true (.flush :: ws) "Commit" []) none := by
+  refine ⟨?_, ?_, ?_, ?_, ?_, ?_, ?_, ?_, ?_, ?_, ?_, ?_, ?_, ?_, ?_, ?_, ?_, ?_⟩ <;> wrap_derive
+
+/-- **debug, derived from its source**, for every filter value `f` and callback / nil callback `cb` (every `debug.New` configuration): each method with a command constant reports `(command, arguments)` to the callback iff the callback is not nil and the filter has the command's bit, *then* forwards with all arguments in order; `Flush`, `Close`, `Realm`, batch `Commit` / `Cancel` forward silently; `WithRealm` / `Batched` create objects that inherit callback and filter. -/
+theorem C04_wrapper_model_is_the_source_debug (ws : List TWrap) (f : Nat) (cb : Bool) (k v : Bytes) (dirs : List Nat) (R : Bytes) (ok fe : Bool) :
+    runBody ⟨[k], dirs, R, ok, fe⟩ (.debug f cb) "s" ws src_debug_debugStore_WithRealm =
+      ofSem (sem ⟨[k], dirs, R, ok, fe⟩ false (.debug f cb :: ws) "WithRealm" [k]) (if ok then some (.debug f cb) else none) ∧
+    runBody ⟨[], dirs, R, ok, fe⟩ (.debug f cb) "s" ws src_debug_debugStore_Realm =
+      ofSem (sem ⟨[], dirs, R, ok, fe⟩ false (.debug f cb :: ws) "Realm" []) none ∧
+    runBody ⟨[k], dirs, R, ok, fe⟩ (.debug f cb) "s" ws src_debug_debugStore_Iterate =
+      ofSem (sem ⟨[k], dirs, R, ok, fe⟩ false (.debug f cb :: ws) "Iterate" [k]) none ∧
+    runBody ⟨[k], dirs, R, ok, fe⟩ (.debug f cb) "s" ws src_debug_debugStore_IterateKeys =
+      ofSem (sem ⟨[k], dirs, R, ok, fe⟩ false (.debug f cb :: ws) "IterateKeys" [k]) none ∧
+    runBody ⟨[], dirs, R, ok, fe⟩ (.debug f cb) "s" ws src_debug_debugStore_Clear =
+      ofSem (sem ⟨[], dirs, R, ok, fe⟩ false (.debug f cb :: ws) "Clear" []) none ∧
+    runBody ⟨[k], dirs, R, ok, fe⟩ (.debug f cb) "s" ws src_debug_debugStore_Get =
+      ofSem (sem ⟨[k], dirs, R, ok, fe⟩ false (.debug f cb :: ws) "Get" [k]) none ∧
+    runBody ⟨[k, v], dirs, R, ok, fe⟩ (.debug f cb) "s" ws src_debug_debugStore_Set =
+      ofSem (sem ⟨[k, v], dirs, R, ok, fe⟩ false (.debug f cb :: ws) "Set" [k, v]) none ∧
+    runBody ⟨[k], dirs, R, ok, fe⟩ (.debug f cb) "s" ws src_debug_debugStore_Has =
+      ofSem (sem ⟨[k], dirs, R, ok, fe⟩ false (.debug f cb :: ws) "Has" [k]) none ∧
+    runBody ⟨[k], dirs, R, ok, fe⟩ (.debug f cb) "s" ws src_debug_debugStore_Delete =
+      ofSem (sem ⟨[k], dirs, R, ok, fe⟩ false (.debug f cb :: ws) "Delete" [k]) none ∧
+    runBody ⟨[k], dirs, R, ok, fe⟩ (.debug f cb) "s" ws src_debug_debugStore_DeletePrefix =
+      ofSem (sem ⟨[k], dirs, R, ok, fe⟩ false (.debug f cb :: ws) "DeletePrefix" [k]) none ∧
+    runBody ⟨[], dirs, R, ok, fe⟩ (.debug f cb) "s" ws src_debug_debugStore_Flush =
+      ofSem (sem ⟨[], dirs, R, ok, fe⟩ false (.debug f cb :: ws) "Flush" []) none ∧
+    runBody ⟨[], dirs, R, ok, fe⟩ (.debug f cb) "s" ws src_debug_debugStore_Close =
+      ofSem (sem ⟨[], dirs, R, ok, fe⟩ false (.debug f cb :: ws) "Close" []) none ∧
+    runBody ⟨[], dirs, R, ok, fe⟩ (.debug f cb) "s" ws src_debug_debugStore_Batched =
+      ofSem (sem ⟨[], dirs, R, ok, fe⟩ false (.debug f cb :: ws) "Batched" []) (if ok then some (.debug f cb) else none) ∧
+    runBody ⟨[k], dirs, R, ok, fe⟩ (.debug f cb) "s" ws src_debug_debugStore_WithExtendedRealm =
+      ⟨trFwd none .realm (.debug f cb :: ws) ++ trFwd none (.withRealm (R ++ k)) (.debug f cb :: ws), ok, if ok then some (.debug f cb) else none⟩ ∧
+    runBody ⟨[k, v], dirs, R, ok, fe⟩ (.debug f cb) "b" ws src_debug_batchedMutations_Set =
+      ofSem (sem ⟨[k, v], dirs, R, ok, fe⟩ true (.debug f cb :: ws) "Set" [k, v]) none ∧
+    runBody ⟨[k], dirs, R, ok, fe⟩ (.debug f cb) "b" ws src_debug_batchedMutations_Delete =
+      ofSem (sem ⟨[k], dirs, R, ok, fe⟩ true (.debug f cb :: ws) "Delete" [k]) none ∧
+    runBody ⟨[], dirs, R, ok, fe⟩ (.debug f cb) "b" ws src_debug_batchedMutations_Cancel =
+      ofSem (sem ⟨[], dirs, R, ok, fe⟩ true (.debug f cb :: ws) "Cancel" []) none ∧
+    runBody ⟨[], dirs, R, ok, fe⟩ (.debug f cb) "b" ws src_debug_batchedMutations_Commit =
+      ofSem (sem ⟨[], dirs, R, ok, fe⟩ true (.debug f cb :: ws) "Commit" []) none := by
+  refine ⟨?_, ?_, ?_, ?_, ?_, ?_, ?_, ?_, ?_, ?_, ?_, ?_, ?_, ?_, ?_, ?_, ?_, ?_⟩ <;> wrap_derive
+
+/-- The constructors and `flushAfterMutation` (functions, not methods) are pinned as normalised source text: `flushkv.New` wraps
+the store, `debug.New` takes `AllCommands` when no filter argument is given and the OR of the arguments otherwise
+(`newFilter`), `flushAfterMutation` returns the error of `Flush` unless it is ErrStoreClosed. -/
+theorem C04_wrapper_constructors_text :
+    text_flushkv_flushAfterMutation =
+      "{ if err := store.Flush(); err != nil && !ierrors.Is(err, kvstore.ErrStoreClosed) { return err } return nil }" ∧
+    text_flushkv_New = "{ return &flushKVStore{ store: store, } }" ∧
+    text_debug_New =
+      "{ var accessCallbackCommandsFilter Command if len(commandsFilter) == 0 { accessCallbackCommandsFilter = AllCommands } else { for _, filterCommand := range commandsFilter { accessCallbackCommandsFilter |= filterCommand } } return &debugStore{ underlying: store, accessCallback: callback, accessCallbackCommandsFilter: accessCallbackCommandsFilter, } }" :=
+  ⟨rfl, rfl, rfl⟩
+
+/-- **The traces the driver prints are `sem`**: what `traceOp` (the function `drv_c04` answers the recorded events with)
+says for a request on a view / batch with stack `ws` is the trace model `sem` of that stack — the very function the two
+theorems above derive from the source layer by layer. -/
+theorem C04_trace_model_is_sem (t : TTab) (s : St) (dirs : List Nat) (v b : Nat) (ws wb : List TWrap) (bt : Batch)
+    (hv : t.views.lookup v = some ws) (hb : t.batches.lookup b = some wb) (hsb : s.batches.lookup b = some bt)
+    (k x : Bytes) (d : Dir) (n : Nat) (fin : Bool) (R : Bytes) :
+    traceOp t s dirs (.set v k x) = (sem ⟨[k, x], dirs, R, !s.db.closed, t.fault⟩ false ws "Set" [k, x]).1 ∧
+    traceOp t s dirs (.del v k) = (sem ⟨[k], dirs, R, !s.db.closed, t.fault⟩ false ws "Delete" [k]).1 ∧
+    traceOp t s dirs (.delp v k) = (sem ⟨[k], dirs, R, !s.db.closed, t.fault⟩ false ws "DeletePrefix" [k]).1 ∧
+    traceOp t s dirs (.clear v) = (sem ⟨[], dirs, R, !s.db.closed, t.fault⟩ false ws "Clear" []).1 ∧
+    traceOp t s dirs (.get v k) = (sem ⟨[k], dirs, R, !s.db.closed, t.fault⟩ false ws "Get" [k]).1 ∧
+    traceOp t s dirs (.has v k) = (sem ⟨[k], dirs, R, !s.db.closed, t.fault⟩ false ws "Has" [k]).1 ∧
+    traceOp t s dirs (.iter v k d n) = (sem ⟨[k], dirs, R, !s.db.closed, t.fault⟩ false ws "Iterate" [k]).1 ∧
+    traceOp t s dirs (.iterk v k d n) = (sem ⟨[k], dirs, R, !s.db.closed, t.fault⟩ false ws "IterateKeys" [k]).1 ∧
+    traceOp t s dirs (.flush v) = (sem ⟨[], dirs, R, !s.db.closed, t.fault⟩ false ws "Flush" []).1 ∧
+    traceOp t s dirs (.close v) = (sem ⟨[], dirs, R, !s.db.closed, t.fault⟩ false ws "Close" []).1 ∧
+    traceOp t s dirs (.realm v) = (sem ⟨[], dirs, R, !s.db.closed, t.fault⟩ false ws "Realm" []).1 ∧
+    traceOp t s dirs (.batch b v) = (sem ⟨[], dirs, R, !s.db.closed, t.fault⟩ false ws "Batched" []).1 ∧
+    traceOp t s dirs (.bset b k x) = (sem ⟨[k, x], dirs, R, !s.db.closed, t.fault⟩ true wb "Set" [k, x]).1 ∧
+    traceOp t s dirs (.bdel b k) = (sem ⟨[k], dirs, R, !s.db.closed, t.fault⟩ true wb "Delete" [k]).1 ∧
+    traceOp t s dirs (.commit b fin) = (sem ⟨[], dirs, R, !s.db.closed, t.fault⟩ true wb "Commit" []).1 ∧
+    traceOp t s dirs (.cancel b) = (sem ⟨[], dirs, R, !s.db.closed, t.fault⟩ true wb "Cancel" []).1 := by
+  simp [traceOp, sem, hv, hb, hsb]
+
+/-- The hypotheses are satisfiable, and the derivation composes: the body of `flushkv.Set` over the (derived) debug layer
+over a bare store gives callback, `Set`, `Flush`. -/
+example : runBody ⟨[[1], [2]], [], [], true, false⟩ .flush "s" [.debug 16 true] src_flushkv_flushKVStore_Set =
+    ⟨[.cb 16 .set [[1], [2]], .call (.set [1] [2]), .call .flush], true, none⟩ := by
+  decide
+
+end WrapperSource
 
 /-! ## regenerated facts about the source (`Hive/Gen/C04_Calls.lean`, `Hive/Gen/C04_Skel.lean`)
 
